@@ -47,6 +47,11 @@ type WSCase struct {
 	Emit   []mwDown         `json:"emit"`
 	Events []simrt.EvSpec   `json:"events"`
 	Jumps  []int            `json:"jumps"` // clock jumps (ms) between driving rounds
+	// StallBurst > 0: the peer stops reading right after the handshake while the
+	// handler emits StallBurst extra messages and the client sends its frames
+	// (back-pressure on the relay's outgoing path); it resumes reading well
+	// before the send timeout.
+	StallBurst int `json:"stall_burst,omitempty"`
 	Sched  simrt.Schedule   `json:"sched"`
 }
 
@@ -361,6 +366,9 @@ func (wsEngine) Gen(t *rapid.T, tier string) any {
 	for i, n := 0, rapid.IntRange(0, 3).Draw(t, "njumps"); i < n; i++ {
 		c.Jumps = append(c.Jumps, rapid.SampledFrom([]int{100, 1000, 4999, 5001, 61000}).Draw(t, "jump"))
 	}
+	if c.Opt.Rate >= 100 && rapid.IntRange(0, 3).Draw(t, "stallburst") == 0 {
+		c.StallBurst = rapid.SampledFrom([]int{3, 70, 150}).Draw(t, "burst")
+	}
 	c.Sched = GenSchedule(t, 4000)
 	return c
 }
@@ -424,7 +432,11 @@ func (h *wsHandler) ServeNostr(ctx context.Context, send chan<- mocrelay.ServerM
 func wsEmissions(c *WSCase) ([]mocrelay.ServerMsg, [][]byte) {
 	var ms []mocrelay.ServerMsg
 	var wire [][]byte
-	for i, e := range c.Emit {
+	emits := append([]mwDown{}, c.Emit...)
+	for i := 0; i < c.StallBurst; i++ {
+		emits = append(emits, mwDown{T: "NOTICE"})
+	}
+	for i, e := range emits {
 		ev := c.Events[e.Ev%len(c.Events)].Event()
 		switch e.T {
 		case "EOSE":
@@ -518,6 +530,9 @@ func (wsEngine) Exec(t *testing.T, cc any) *simrt.Result {
 				writerDone, readerDone = true, true
 				return
 			}
+			if c.StallBurst > 0 {
+				link.StallS2C()
+			}
 			sim.Go("wsc.rd", func() {
 				defer func() { readerDone = true }()
 				for {
@@ -543,6 +558,18 @@ func (wsEngine) Exec(t *testing.T, cc any) *simrt.Result {
 			}
 			writerDone = true
 		})
+		if c.StallBurst > 0 {
+			// the stalled phase: at most 400ms of simulated time (send timeout >= 1s)
+			st.Fault("conn-stall")
+			for i := 0; i < 40 && !writerDone; i++ {
+				sim.Drive()
+				sim.Advance(10 * time.Millisecond)
+			}
+			sim.Drive()
+			if link != nil {
+				link.ResumeS2C()
+			}
+		}
 		// drive with time: the rate limiter and the ping ticker need the clock
 		budget := time.Duration(float64(len(c.Frames))/c.Opt.Rate*float64(time.Second)) + 3*time.Second
 		ji := 0
